@@ -34,7 +34,7 @@ def random_leg(rng, chinfo, nblocks=None, max_size=3, qconj=None, kind=None, all
     return leg
 
 
-def random_array(rng, legs, dtype=float, qtotal=None, drop_blocks=0.3, zero_blocks=0.2, labels=None):
+def random_array(rng, legs, dtype=float, qtotal=None, drop_blocks=0.3, zero_blocks=0.2, labels=None, storage=None):
     import tenpy.linalg.np_conserved as npc
     chinfo = legs[0].chinfo
 
@@ -61,7 +61,7 @@ def random_array(rng, legs, dtype=float, qtotal=None, drop_blocks=0.3, zero_bloc
                 d[...] = 0
     # storage order of the blocks: either sorted with a truthful claim, or shuffled with the claim cleared
     if len(a._data) > 1:
-        if rng.random() < 0.5:
+        if storage == 'sorted' or (storage is None and rng.random() < 0.5):
             a.isort_qdata()
         else:
             perm = rng.permutation(len(a._data))
